@@ -273,7 +273,10 @@ func buildDigest(e *engine, p *rt.Package) {
 		e.units = append(e.units, &unit{check: "digest", schema: p.ID, name: string(md.Name()), direct: func(res *Result) {
 			h := sha256.New()
 			var lines []string
-			gen := rapid.Custom(func(t *rapid.T) proto.Message { return valgen.Message(t, newMsg, "v", valgen.Opts{}) })
+			gen := rapid.Custom(func(t *rapid.T) proto.Message {
+				rapid.Bool().Draw(t, "_") // Custom generators must consume data even for empty messages
+				return valgen.Message(t, newMsg, "v", valgen.Opts{})
+			})
 			n := e.cfg.Cases
 			for i := 0; i < n; i++ {
 				v := gen.Example(int(e.cfg.Seed%1000003) + i + 1)
